@@ -1049,6 +1049,21 @@ fn expect_next(d: &Desc, r: &[u8], c: usize) -> Vec<Verdict> {
             out.push(x);
         }
     }
+    // A content error in a message that is not COMPLETE yet (its own length fields announce more bytes than the
+    // stream / the buffer will ever hold): the property demands a parse error only for a complete malformed
+    // message; a receiver that validates the fields in another order asks for more input first and then
+    // reports the end of the stream or the full buffer. Both are accepted.
+    if out.contains(&Verdict::Parse) {
+        let ld = refmodel::lenient(d);
+        let avail = r.len().min(c);
+        if (0..=avail).all(|k| matches!(decode(&ld, &r[..k]), Err(Reject::Short))) {
+            for v in if r.len() >= c { vec![Verdict::Oom, Verdict::ClosedOrOom] } else { vec![Verdict::Closed] } {
+                if !out.contains(&v) {
+                    out.push(v);
+                }
+            }
+        }
+    }
     // a decisive verdict that only appears beyond some prefixes may be preceded by Short ones: then
     // running out of input first is also legitimate
     let first_k = classes[0].0;
